@@ -1064,7 +1064,15 @@ class Filterbank(ABC):
         -------
         str
             Name of output file.
+
+        Raises
+        ------
+        ValueError
+            If ``nsub`` is not a positive divisor of the number of channels.
         """
+        if nsub <= 0 or self.header.nchans % nsub != 0:
+            msg = f"Number of subbands must divide the number of channels: {nsub:d}"
+            raise ValueError(msg)
         subfactor = self.header.nchans // nsub
         chan_delays = self.header.get_dmdelays(dm)
         max_delay = int(chan_delays.max())
